@@ -191,8 +191,9 @@ class Ctx:
                 self._task_outcome(cl)
                 conn.scrub()
                 cl.shadow.on_disconnect()
-                import gc
-                gc.collect()
+                if cl.sid < 900:
+                    import gc
+                    gc.collect()
 
     def _task_outcome(self, cl: Client) -> None:
         task = cl.conn.task
@@ -220,7 +221,8 @@ class Ctx:
         server.  Returns None if the mailbox cannot be examined."""
         user = user or self.world.users[0]
         self._probe_n += 1
-        cl = Client(self.world, 900 + self._probe_n, glass=False)
+        cl = Client(self.world, 900 + self._probe_n, peer='127.0.0.1',
+                    glass=False)
         self.probe_clients.append(cl)
         self.stat('probes')
 
